@@ -77,6 +77,10 @@ ROWS = {
    technique='property-based testing: token non-occurrence + decrypt-with-every-pool-key oracle on IdP output; metamorphic plain-vs-encrypted verdict relation and explicit bad-signature cases (incl. encrypted advice assertions) on the SP; enumerated undecryptable cases',
    text='IdP half: for generated high-entropy identities and every sign/encrypt/advice/PEFIM/self-contained option and SP key-descriptor layout, no token may occur in the emitted bytes and only the SP\'s first private key decrypts. SP half: a fault inside the assertion must not be accepted encrypted when the same document is rejected in clear; decrypted advice assertions with bad signatures must be refused; content encrypted for a foreign key yields no identity.',
    note=TOOL_NOTE + ' (3DES/AES-CBC, RSA-1_5/OAEP); frozen clock; SP acceptance of non-self-contained plaintext is not judged.'),
+ 'C10': dict(level='exploration', design='3/C10',
+   technique='property-based testing: generated request type x binding encoding x signing x receiver setting x mutation (field edits, near-miss destinations, IssueInstant edges, wrong type/root, garbled encodings, tree mutation scripts); conjunction oracle evaluated by independent readers on the raw document',
+   text='Whenever an IdP or SP hands a request object to the application, the raw document must be of the expected type, carry ID/Version 2.0/IssueInstant within the window, a Destination that is absent or exactly an own endpoint for the service, and - if it carries a signature or the receiver wants signed requests - a valid enveloped signature of the request element under the issuer\'s metadata key; unmodified valid requests must be accepted.',
+   note=TOOL_NOTE + '; frozen clock; SOAP-delivered signed third-party requests are not required to be accepted (re-serialisation, see C08 finding).'),
 }
 NOT_YET = {}
 def main():
